@@ -578,6 +578,19 @@ func (r *Roles) resolveFunctions() {
 	if r.FnLoop != nil {
 		// the connection's two signal channels: the exit signal is the one that gets closed (by the
 		// loop's deferred cleanup), the activity signal the one that is sent on
+		loopCone := map[*ssa.Function]bool{}
+		for _, g := range p.cone(r.FnLoop) {
+			loopCone[g] = true
+		}
+		recvInLoop := func(ec *types.Var) bool {
+			for _, u := range usesOfKind(p.uses(ec), "recv", "select-recv") {
+				if loopCone[u.Fn] {
+					return true
+				}
+			}
+			return false
+		}
+		pongFromLoop := false
 		for _, ec := range r.emptyChans {
 			closed := len(usesOfKind(p.uses(ec), "close")) > 0
 			sent := len(usesOfKind(p.uses(ec), "send", "select-send")) > 0
@@ -585,7 +598,12 @@ func (r *Roles) resolveFunctions() {
 			case closed && !sent:
 				r.FExiting = ec
 			case sent && !closed:
-				r.FPongs = ec
+				// several token channels may exist (a semaphore of handler slots): the activity signal is
+				// the one the connection loop itself receives from
+				if rl := recvInLoop(ec); rl || !pongFromLoop {
+					r.FPongs = ec
+					pongFromLoop = pongFromLoop || rl
+				}
 			default:
 				closedInLoop := false
 				for _, u := range usesOfKind(usesIn(p.uses(ec), r.FnLoop), "close") {
